@@ -115,7 +115,7 @@ CHECKS = {
              "runtime boolean in a generic context `fn p<D: Tr>(d: &D)`, the future is driven to completion and its value compared; non-Send bodies must "
              "compile under ?Send and be rejected ('cannot be sent between threads') by default; under async_trait the async fn must be kept and the "
              "attribute re-applied to every generated trait and trait impl (structural view).",
-        note=NOTE + " One open known finding (borrow from deps through a dyn delegation target) is listed in known_findings.json.",
+        note=NOTE,
         technique="exhaustive enumeration of async programs on the real macro; compile-time witnesses, runtime Send probe, negative compile probes, structural view",
         ref="DESIGN.md §3 C12"),
     "C13": dict(
